@@ -39,6 +39,7 @@ fn many_rows_cmd(r: &mut Rng, binary_stmt: Option<u32>) -> Cmd {
         end: End::Implicit,
         ret_err: None,
         probe_cells: false,
+        pull_params: None,
     };
     match binary_stmt {
         Some(id) => Cmd {
@@ -137,7 +138,11 @@ pub fn gen_sink(r: &mut Rng, tier: Tier, job: u64) -> Plan {
             act: Act::None,
         });
     }
+    if r.chance(1, 30) {
+        insert_aligned_query(r, &mut cmds);
+    }
     fix_long_data(&mut cmds);
+    sprinkle_pulls(r, &mut cmds, 12);
     // an operation on a statement id that is not open (ends the conversation there)
     if r.chance(1, 14) {
         insert_dead_op(r, &mut cmds);
